@@ -274,8 +274,13 @@ class Runtime:
         kind = fn["kind"]
         if kind == "func":
             return self.fn_callable[f]
+        if kind == "init" and o in self.objs:
+            # super().__init__(...) from a derived constructor: the base constructor on the same instance
+            inst0 = self.objs[o]
+            base_cls = self.fn_class[f]
+            return lambda x: base_cls.__init__(inst0, x)
         if kind == "init":
-            cls = self.fn_class[f]
+            cls = self.classes[self.prog["obj"][o - 1]["cls"]] if o and o <= len(self.prog["obj"]) else self.fn_class[f]
 
             def construct(x: Any) -> Any:
                 self.pending_new.append(o)
@@ -306,8 +311,14 @@ class Runtime:
             return getattr(self.fn_class[f], self.fn_name[f])
         inst = self.objs[o]
         name = self.fn_name[f]
-        if kind == "method":
+        if kind in ("method", "protected", "private"):
             return getattr(inst, name)
+        if kind == "dunder":
+            return lambda x: inst(x)
+        if kind == "repr":
+            return lambda x: (repr(inst), None)[1]
+        if kind == "setattr":
+            return lambda x: setattr(inst, "attr", x)
         if kind == "getter":
             return lambda x: getattr(inst, name)
         if kind == "setter":
